@@ -20,6 +20,7 @@ def alt_times(n):
 
 class C01(Prop):
     id = 'C01'
+    rule_added = '12% under another sampling period x default unit x spelling (mixed-unit bounds favoured).'
     rule = ('grammar-directed random STL formulas (depth<=5, all operators incl. unary minus, transcendental '
             'functions, six comparisons, rise/fall, weak/strong prev/next, bounded+unbounded past/future, '
             'until/since/unless) x random dyadic traces (1..40 samples, 1..4 variables); each case: fresh spec, '
